@@ -1,5 +1,6 @@
 import BasicModel.Lemmas.Link
 import BasicModel.Lemmas.Control
+import BasicModel.Lemmas.ExprCompile
 /-
   C01 — Compiled execution follows the documented control-flow semantics (floor).
 
@@ -8,8 +9,13 @@ import BasicModel.Lemmas.Control
   ON selects 1-based and falls through on 0 or beyond the list, NEXT compares by the sign of the
   step, GOSUB/RETURN is a balanced call.
 
-  (`compileExpr_correct` and the per-statement / whole-program simulation theorems of DESIGN.md
-  are targets, not proved in this file.)
+  Expressions: for the fragment `Spec.Pure` (literals, scalar variable reads, unary minus, NOT, the
+  18 binary operators, one-argument built-in functions) the compiler emits the postfix code `flat e`
+  (`compileExpr_shape`) and the VM, run on that code, pushes the value the direct evaluator
+  `Spec.eval` assigns to the tree, or stops in the same error (`compileExpr_correct`).
+
+  (The per-statement / whole-program simulation theorems of DESIGN.md are targets, not proved in
+  this file.)
 -/
 namespace Basic
 namespace Thm.C01
@@ -220,6 +226,104 @@ example : (({ whiles := [(false, (0, 4), 3, -1)], symbols := [(10, (0, 0))] } : 
     [{ code := Code.wendWithoutWhile, line := some 10, colStart := 0, colEnd := 4 }] := by decide
 example : (({ whiles := [(true, (0, 5), 1, -1), (false, (0, 4), 3, -2)] } : Link).linkWhiles).1.unlinked =
     [(3, ((0, 4), -1)), (1, ((0, 5), -2))] := by decide
+
+
+/-! ### expressions: the compiled code computes the tree's value -/
+
+section expressions
+open Basic.Spec Basic.Lemmas.ExprCompile
+
+/-- **Codegen shape.**  For a tree `e` of the fragment `Spec.Pure` whose postfix code `flat e` fits
+    the code segment, the visitor pushes exactly one entry on the expression stack, a fragment whose
+    code is `flat e` and that has no data, no symbols, no pending references, no WHILE marks and
+    symbol counter 0; it reports no error and leaves the variable stack, the statement stack and the
+    fragment under construction as they were. -/
+theorem compileExpr_shape {e : Expr} (hp : Pure e) (s : Codegen.VState) (hlen : (flat e).length ≤ 65535) :
+    ∃ c, Codegen.acceptExpr e s =
+      { s with g := { s.g with expr := s.g.expr.push (c, ({ ops := (flat e).toArray } : Link)) } } :=
+  acceptExpr_shape hp s hlen
+
+/-- **Compiled expressions compute their tree value.**  Compiling a tree of the fragment adds exactly
+    one expression fragment (code `flat e`) and reports nothing.  Wherever that code lies in the code
+    segment of a runtime `s` — trace off, room on the stack for `(flat e).length` values, `hie`
+    arbitrary —, running it from `s.pc`:
+    * if `Spec.eval s.vars e = .ok v`: every step answers `continue`, and the final state is `s` with
+      `pc` advanced past the code and `v` pushed on the stack (the rest of the stack, the variables and
+      everything else as in `s`); the variables are unchanged after every single step;
+    * if `Spec.eval s.vars e = .error err`: after `k` good steps (`k` less than the code's length,
+      variables unchanged all along) the next step fails with exactly `err`, variables still
+      unchanged, and that is what running the whole code reports. -/
+theorem compileExpr_correct (env : Env) (hie : Bool) {e : Expr} (hp : Pure e) (vs : Codegen.VState)
+    (hlen : (flat e).length ≤ 65535) :
+    ∃ (c : Col) (frag : Link),
+      (Codegen.acceptExpr e vs).g.expr = vs.g.expr.push (c, frag) ∧
+      (Codegen.acceptExpr e vs).errors = vs.errors ∧
+      frag.ops = (flat e).toArray ∧
+      ∀ (s : Runtime), CodeAt s.program.link.ops s.pc frag.ops.toList → s.tron = false →
+        s.stack.size + frag.ops.size ≤ 65535 →
+        (∀ v, eval s.vars e = .ok v →
+          runOps env hie frag.ops.toList s =
+            (.ok .continue, { s with pc := s.pc + frag.ops.size, stack := s.stack.push v }) ∧
+          ∀ j, j ≤ frag.ops.size → ∃ sj, runSteps env hie j s = (.ok .continue, sj) ∧ sj.vars = s.vars) ∧
+        (∀ err, eval s.vars e = .error err →
+          ∃ (k : Nat) (s' s'' : Runtime), k < frag.ops.size ∧
+            runSteps env hie k s = (.ok .continue, s') ∧
+            ((step env hie).run).run s' = (.error err, s'') ∧
+            s''.vars = s.vars ∧
+            (∀ j, j ≤ k → ∃ sj, runSteps env hie j s = (.ok .continue, sj) ∧ sj.vars = s.vars) ∧
+            runOps env hie frag.ops.toList s = (.error err, s'')) := by
+  obtain ⟨c, h⟩ := acceptExpr_shape hp vs hlen
+  refine ⟨c, plain (flat e).toArray, by rw [h], by rw [h], rfl, ?_⟩
+  intro s hcode htr hroom
+  have e1 : (plain (flat e).toArray).ops.toList = flat e := by simp [plain]
+  have e2 : (plain (flat e).toArray).ops.size = (flat e).length := by simp [plain]
+  rw [e1] at hcode ⊢
+  rw [e2] at hroom ⊢
+  exact flat_correct env hie hp s hcode htr hroom
+
+/-! non-vacuity: `1 + 2 * A%` -/
+
+/-- `1 + 2 * A%` -/
+def exTree : Expr :=
+  .bin .add (0, 9) (.integer (0, 1) 1)
+    (.bin .multiply (4, 9) (.integer (4, 5) 2) (.var (.unary (8, 9) (.integer "A%".toList))))
+
+/-- `A% \ 0`: fails in the last instruction -/
+def exBad : Expr := .bin .divideInt (0, 6) (.var (.unary (0, 2) (.integer "A%".toList))) (.integer (5, 6) 0)
+
+def exEnv : Env := { lex := fun _ => default, lineRenum := fun _ l => l }
+
+/-- a runtime with the given code at address 2, one value on the stack and `A% = 20` -/
+def exRun (ops : List Opcode) : Runtime :=
+  { program := { link := { ops := #[.end, .end] ++ ops.toArray ++ #[.end] } },
+    pc := 2, stack := #[.int 7], vars := { vars := [("A%".toList, .int 20)] } }
+
+example : Pure exTree := by decide
+example : flat exTree = [.literal (.int 1), .literal (.int 2), .push "A%".toList, .mul, .add] := by decide
+example : eval (exRun (flat exTree)).vars exTree = .ok (.int 41) := by decide
+example : eval (exRun (flat exBad)).vars exBad = .error (Error.mk' Code.divisionByZero) := by decide
+/-- the shape theorem at work -/
+example : ∃ c, Codegen.acceptExpr exTree {} =
+    { g := { expr := #[(c, { ops := #[.literal (.int 1), .literal (.int 2), .push "A%".toList, .mul, .add] })] } } :=
+  compileExpr_shape (by decide) {} (by decide)
+/-- the hypotheses of the run theorem hold of a concrete machine … -/
+example : CodeAt (exRun (flat exTree)).program.link.ops (exRun (flat exTree)).pc (flat exTree) ∧
+    (exRun (flat exTree)).tron = false ∧ (exRun (flat exTree)).stack.size + (flat exTree).length ≤ 65535 := by
+  decide
+/-- … and the machine does what the theorem says (computed independently of the proof) -/
+example : (runOps exEnv false (flat exTree) (exRun (flat exTree))).2.stack = #[.int 7, .int 41] := by decide
+example : (runOps exEnv false (flat exTree) (exRun (flat exTree))).2.pc = 7 := by decide
+/-- the error a run reports, if any -/
+def exErr (r : Except Error Step × Runtime) : Option Error :=
+  match r.1 with
+  | .error e => some e
+  | .ok _ => none
+
+example : exErr (runOps exEnv true (flat exBad) (exRun (flat exBad))) = some (Error.mk' Code.divisionByZero) := by
+  decide
+example : (runOps exEnv true (flat exBad) (exRun (flat exBad))).2.vars.vars = [("A%".toList, .int 20)] := by decide
+
+end expressions
 
 end Thm.C01
 end Basic
